@@ -71,6 +71,7 @@ PROPS["C03"] = P(
     "never change except by deletion; uniqueness invariants preserved by every operation",
     lambda tier: all_ops(tier, ["C03.", "INV.uniq_", "INV.np_mailbox", "INV.npid_below_counter"]) +
                  restart_tasks(tier, [(["alloc", "claim"], ["claim", "allocate"]), (["alloc_sweep_claim"], ["claim"]),
+                                      (["claim_list_open_close", "claim_list_release"], ["claim"]),
                                       (["any2", "any2_sweep"] + (["any3"] if tier == "thorough" else []), ["claim", "allocate"])]))
 
 PROPS["C05"] = P(
